@@ -6,13 +6,16 @@ import (
 	"fmt"
 	"sort"
 	"strings"
+	"sync"
 
 	"github.com/coredns/coredns/plugin"
 	"github.com/facebookincubator/dns/dnsrocks/dnsserver"
+	srvstats "github.com/facebookincubator/dns/dnsrocks/dnsserver/stats"
 	"github.com/facebookincubator/dns/dnsrocks/fbserver"
 	"github.com/miekg/dns"
 
 	"verifharness/dnsfix"
+	"verifharness/vlib"
 )
 
 // maxAns is the per-query address limit installed in the context (what
@@ -26,6 +29,68 @@ type env struct {
 	backend dnsfix.Backend
 	h       *dnsfix.Handler
 	mux     dns.Handler // fbserver's serveMux in front of the same handler
+	path    string      // the compiled database (for the cache-enabled handlers)
+
+	mu   sync.Mutex
+	free []*cachedHandler // cache-enabled handlers over the same files, one per concurrent work unit
+	all  []*cachedHandler
+}
+
+// cachedHandler is a second real handler over the same database with the response
+// cache enabled; its statistics sink counts cache hits so that the harness knows
+// whether the second query of a history was really served from the cache.
+type cachedHandler struct {
+	h    *dnsfix.Handler
+	hits hitCounter
+}
+
+type hitCounter struct {
+	srvstats.DummyStats
+	hit, miss int64
+}
+
+func (s *hitCounter) IncrementCounter(key string) {
+	switch key {
+	case "DNS_cache.hit":
+		s.hit++
+	case "DNS_cache.missed":
+		s.miss++
+	}
+}
+
+// acquireCached hands out a cache-enabled handler for exclusive use by one work unit.
+func (e *env) acquireCached() *cachedHandler {
+	e.mu.Lock()
+	if n := len(e.free); n > 0 {
+		ch := e.free[n-1]
+		e.free = e.free[:n-1]
+		e.mu.Unlock()
+		return ch
+	}
+	e.mu.Unlock()
+	ch := &cachedHandler{}
+	h, err := dnsfix.OpenHandler(e.backend, e.path, dnsfix.HandlerOpts{Cache: dnsserver.CacheConfig{Enabled: true, LRUSize: 64}, Stats: &ch.hits})
+	if err != nil {
+		vlib.Infra("open %s on %s with the cache enabled: %v", e.db, e.backend, err)
+	}
+	ch.h = h
+	e.mu.Lock()
+	e.all = append(e.all, ch)
+	e.mu.Unlock()
+	return ch
+}
+
+func (e *env) releaseCached(ch *cachedHandler) {
+	e.mu.Lock()
+	e.free = append(e.free, ch)
+	e.mu.Unlock()
+}
+
+func (e *env) close() {
+	for _, ch := range e.all {
+		ch.h.Close()
+	}
+	e.h.Close()
 }
 
 // withMaxAns is the stand-in for fbserver's maxAnswer plugin between the mux and the handler.
@@ -38,8 +103,8 @@ func (p withMaxAns) Name() string { return "maxAnswer" }
 
 var _ plugin.Handler = withMaxAns{}
 
-func newEnv(db string, b dnsfix.Backend, h *dnsfix.Handler) *env {
-	return &env{db: db, backend: b, h: h, mux: fbserver.NewServeMuxForVerif(withMaxAns{h.H})}
+func newEnv(db string, b dnsfix.Backend, h *dnsfix.Handler, path string) *env {
+	return &env{db: db, backend: b, h: h, path: path, mux: fbserver.NewServeMuxForVerif(withMaxAns{h.H})}
 }
 
 // serve hands one parsed message to the real code and records what happened.
@@ -74,6 +139,8 @@ type observation struct {
 	canon          string // canonical text of the outcome (only filled when wanted)
 	twinRan        int    // metamorphic comparisons made
 	firstOfMany    bool   // multi-question query, reply echoes (and answers) the first question only
+	cacheHit       bool   // two-query history: the second query was served from the response cache
+	firstCached    bool   // two-query history: the first query left an entry in the cache
 }
 
 // limitFor is the number of bytes the client can take.
@@ -233,6 +300,9 @@ func canonOutcome(res dnsfix.Result, back *dns.Msg) string {
 // eval runs one case (and its twin with an added unknown option) against the real
 // handler and returns every disagreement with the statement.
 func (e *env) eval(c qcase, twins []int, obs *observation, calls *int64) []finding {
+	if c.pre > 0 {
+		return e.evalPair(c, obs, calls)
+	}
 	wire, err := c.wire(0)
 	if err != nil {
 		return nil // the client library cannot even produce it: not a wire-valid message
@@ -290,6 +360,95 @@ func (e *env) eval(c qcase, twins []int, obs *observation, calls *int64) []findi
 	return fs
 }
 
+// parse packs the case and parses it back the way dns.Server would (nil: not a wire-valid message).
+func (c qcase) parse() *dns.Msg {
+	w, err := c.wire(0)
+	if err != nil {
+		return nil
+	}
+	m := new(dns.Msg)
+	if m.Unpack(w) != nil {
+		return nil
+	}
+	return m
+}
+
+// firstID is the message id of the query preceding c: never c's own id.
+func (c qcase) firstID() uint16 { return c.queryID() ^ 0xa5a5 }
+
+// evalPair runs a two-query history on a handler with the response cache enabled
+// and EMPTY: the preceding query c.first() (same name up to spelling, type, class
+// and client address as c, so the same cache key; different message id), then c.
+// Both replies are judged by the statement, each against ITS OWN query. A
+// disagreement is reported here only if the cache has to do with it:
+//
+//	after-cached-query/<kind>  c's reply is wrong after the preceding query but not when c is asked on an empty cache
+//	cache-enabled/<kind>       c's reply is wrong on an empty cache, cache enabled, but not with the cache disabled
+//	cache-enabled-first/<kind> the same for the preceding query
+//
+// (anything that also happens with the cache disabled belongs to the single-query part).
+func (e *env) evalPair(c qcase, obs *observation, calls *int64) []finding {
+	q1 := c.first()
+	req1, req2 := q1.parse(), c.parse()
+	if req1 == nil || req2 == nil {
+		return nil
+	}
+	req1.Id = c.firstID()
+	obs.reachedHandler = true
+	ch := e.acquireCached()
+	defer e.releaseCached(ch)
+	serve := func(h *dnsfix.Handler, req *dns.Msg, x qcase) dnsfix.Result {
+		*calls++
+		return h.Serve(req, clients[x.client], x.tcp == 1, maxAns)
+	}
+	ch.h.H.PurgeCacheForVerif()
+	ref1 := req1.Copy()
+	res1 := serve(ch.h, req1, q1)
+	var o1 observation
+	fs1, _, _ := check(ref1, q1, res1, &o1)
+	obs.firstCached = ch.h.H.CacheLenForVerif() > 0
+	hits := ch.hits.hit
+	ref2 := req2.Copy()
+	res2 := serve(ch.h, req2, c)
+	fs2, back2, _ := check(ref2, c, res2, obs)
+	obs.cacheHit = ch.hits.hit > hits
+	obs.nontrivial = obs.replied && obs.cacheHit
+	var fs []finding
+	if len(fs2) > 0 {
+		ch.h.H.PurgeCacheForVerif()
+		var oa, on observation
+		fsA, _, _ := check(ref2, c, serve(ch.h, c.parse(), c), &oa)
+		var fsN []finding
+		ranN := false
+		for _, f := range fs2 {
+			if _, ok := hasKind(fsA, f.kind); !ok {
+				fs = append(fs, finding{"after-cached-query/" + f.kind, fmt.Sprintf("cache enabled and empty; first query (id %d): %s\n  %v\nthen the query of the case (id %d) - served from the cache: %v:\n%s\nreply:\n%v\n(asked alone on an empty cache the same query is answered without this disagreement)",
+					ref1.Id, q1, ref1.Question, ref2.Id, obs.cacheHit, f.detail, back2)})
+				continue
+			}
+			if !ranN {
+				fsN, _, _ = check(ref2, c, serve(e.h, c.parse(), c), &on)
+				ranN = true
+			}
+			if _, ok := hasKind(fsN, f.kind); !ok {
+				fs = append(fs, finding{"cache-enabled/" + f.kind, "cache enabled and empty (with the cache disabled the same query is answered without this disagreement): " + f.detail})
+			}
+		}
+	}
+	if len(fs1) > 0 {
+		var on observation
+		r1 := q1.parse()
+		r1.Id = ref1.Id
+		fsN, _, _ := check(ref1, q1, serve(e.h, r1, q1), &on)
+		for _, f := range fs1 {
+			if _, ok := hasKind(fsN, f.kind); !ok {
+				fs = append(fs, finding{"cache-enabled-first/" + f.kind, fmt.Sprintf("cache enabled and empty, query %s (with the cache disabled it is answered without this disagreement): %s", q1, f.detail)})
+			}
+		}
+	}
+	return fs
+}
+
 func hasKind(fs []finding, kind string) (finding, bool) {
 	for _, f := range fs {
 		if f.kind == kind {
@@ -307,6 +466,7 @@ type dim struct {
 }
 
 var dims = []dim{
+	{"pre", len(firsts), func(c *qcase) *uint8 { return &c.pre }},
 	{"via", 2, func(c *qcase) *uint8 { return &c.via }},
 	{"tcp", 2, func(c *qcase) *uint8 { return &c.tcp }},
 	{"client", len(clients), func(c *qcase) *uint8 { return &c.client }},
@@ -318,6 +478,8 @@ var dims = []dim{
 	{"op", len(opcodes), func(c *qcase) *uint8 { return &c.op }},
 	{"qd", len(qdcounts), func(c *qcase) *uint8 { return &c.qd }},
 	{"class", len(classes), func(c *qcase) *uint8 { return &c.class }},
+	{"bits", len(flagSets), func(c *qcase) *uint8 { return &c.bits }},
+	{"cas", len(spellings), func(c *qcase) *uint8 { return &c.cas }},
 	{"type", len(types), func(c *qcase) *uint8 { return &c.typ }},
 	{"name", len(names), func(c *qcase) *uint8 { return &c.name }},
 }
